@@ -62,7 +62,7 @@ PROPS["C01"] = dict(
     note="Termination is disabled with LnoInterrupt (C12 owns it). Treated-as targets are restricted to Panic..Trace because the statement does not say how a level treated as Off/Always/OK/Success/Fail chains. Registry isolation relies on the verif hook.",
     rule=("rapid draws 0-4 RegisterLevel calls (values negative/12..40/huge/colliding, optional treated-as in Panic..Trace, optional error device), "
           "a debug history (off / SetDebugMode / side effect of SetLevel(Debug) on another logger), a logger kind (root via interface, root *Entry, "
-          "child, grandchild), L and r from built-ins, registered and unregistered numeric levels, and an entry point able to carry r. "
+          "child, grandchild), L and r from the built-in levels and the levels registered in that case (numeric levels that are neither are outside the property's quantifier), and an entry point able to carry r. "
           "Non-trivial: the pair is decided by a clause other than plain built-in ordering, or the entry point is not a plain verb method; "
           "distinct = (clause, entry point, kind of L, kind of r, decision)."
           " The debug mode may also be changed after the logger's level was set, or switched off again before the call; the side-effect history also runs SetLevel(Debug) on a child / grandchild of an unrelated root; the Print/Println family is also called without a message / without any argument; a fifth of the generated cases run with an application-provided holder of the process-wide switches (states.UpdateEnvWith)."),
@@ -186,7 +186,7 @@ PROPS["C05"] = dict(
     technique="property-based testing (rapid) with an independent logfmt tokenizer + strconv.Unquote as judge, in a production-mode and a testing-mode binary; native fuzzing",
     claim=("Generated records (as for C04, with legal logfmt keys) are emitted in logfmt mode; the payload must be one line that the harness's own "
            "tokenizer accepts completely: time, logger (iff named), level, msg in that order, then exactly the flattened attributes (dotted keys "
-           "for group members, ascending order) with every string-like value quoted and unquoting to the exact bytes, numbers/bools bare and "
+           "for group members; their order and the place of the caller pairs are not asserted - C07 states the order) with every string-like value quoted and unquoting to the exact bytes, numbers/bools bare and "
            "exact, then the caller pairs iff enabled. The check runs in a production-mode copy of the binary (one-line clause for every value "
            "kind incl. errors) and under go test (the multi-line error dump after the line is exempt)."),
     note="Keys: non-empty, valid UTF-8, no space/'='/quote/control/'.'; reserved names excluded at every level; runs of blanks between pairs are accepted (statement: space-separated); nil may be printed as the bare placeholder <nil>.",
@@ -429,7 +429,7 @@ PROPS["C08"] = dict(
     note="WEAKEST claim of the set: interleavings are sampled by the Go scheduler, not enumerated or controlled; the race detector only reports races on executed paths. Concurrent reconfiguration while logging is outside the claim and never generated. A race report cannot be shrunk by rapid (it is attributed to the whole test); the replay re-runs the stage with the same seed.",
     rule=("Non-trivial: >= 2 goroutines share a logger and a group value or logger attributes or a parent/child pair are involved; distinct = "
           "(formats present, sharing shape, G bucket, number of loggers, GOMAXPROCS, multi-line)."
-          " Workloads may contain blank Print/Println calls (counted), loggers with context keys (every call carries its own context values) and unregistered numeric levels (one per goroutine); the Group value shared by the callers must be unmodified afterwards. Some calls are plain verb methods without any argument; some pass a group of their own under the key of the logger-level shared group (the call's group wins); the shared group has a sub-group in key order with a repeated key and is compared by value afterwards; argument-less calls use Infof/Warnf/Errorf half of the time; a logger may have 1100 own attributes. Records may also arrive through log/slog adapters and std log bridges built before or after the loggers were configured, through per-level writers, and with attribute values of several kilobytes."),
+          " Workloads may contain blank Print/Println calls (counted), loggers with context keys (every call carries its own context values) and custom levels registered for the case (one per goroutine); the Group value shared by the callers must be unmodified afterwards. Some calls are plain verb methods without any argument; some pass a group of their own under the key of the logger-level shared group (the call's group wins); the shared group has a sub-group in key order with a repeated key and is compared by value afterwards; argument-less calls use Infof/Warnf/Errorf half of the time; a logger may have 1100 own attributes. Records may also arrive through log/slog adapters and std log bridges built before or after the loggers were configured, through per-level writers, and with attribute values of several kilobytes."),
     assumptions=["the recording writers are mutex-protected and copy the payload before returning"],
     stages=[
         dict(name="race", run="^TestConcurrentWorkloads$", race=True, crash_is_violation=True, quick=400, thorough=16000, shards=8, timeout_quick=900, timeout_thorough=3000),
